@@ -25,6 +25,7 @@ class C11(OptCheck):
     prop = "C11"
     vfiles = ["Properties/Properties_C11.v", "Tie/Tie_C11.v"]
     corpus = "C11.txt"
+    oracle_args = ("oracle", "C11")
     design_ref = "DESIGN.md section 6, C11"
     technique = "Coq proof on the spec's assignment (count = occurrences, reversal, polarity clash, closed vocabulary) transferred by refinement + translator-regenerated vocabulary table with Tie obligations + differential run over all case variants and one-edit near misses"
     level_text = ""
